@@ -33,29 +33,39 @@ structure Quirks where
   /-- F33: inside a bracketed PAIR of lengths the reader's coordinate regex `[\w.+-:]` does not
   accept the quote units `"` / `'` (what `radunit='arcsec'` writes). -/
   quotePairUnreadable : Bool
+  /-- F34: `val.transform_to(FrameClass)` lets the SOURCE coordinate's frame attributes (equinox,
+  obstime) override the defaults of the target frame: FK5 at equinox J1975 is written unchanged
+  under `coord=J2000`. -/
+  keepSourceAttrs : Bool
 deriving DecidableEq, Repr
 
 /-- the tree as it is now. -/
 def Quirks.current : Quirks :=
   { popInclude := false,        -- F6 fixed in /repo by 90d029a (`region.meta.get('include', True)`)
     textFromMeta := false, pointUnreadable := false, pixAsDeg := false,
-    dropLabelcolor := true, labeloffRepr := false, quotePairUnreadable := false }
+    dropLabelcolor := true, labeloffRepr := false, quotePairUnreadable := false,
+    keepSourceAttrs := false }
 
 /-- all candidate defects repaired as in `/verif/proposed_fixes/`. -/
 def Quirks.fixed : Quirks :=
   { popInclude := false, textFromMeta := false, pointUnreadable := false, pixAsDeg := false,
-    dropLabelcolor := false, labeloffRepr := false, quotePairUnreadable := false }
+    dropLabelcolor := false, labeloffRepr := false, quotePairUnreadable := false,
+    keepSourceAttrs := false }
 
 /-- a region as the writer sees it. -/
 structure WReg where
   kind : Kind
   sky : Bool                    -- `isinstance(region, SkyRegion)`
-  pts : List (ℚ × ℚ)            -- centre | vertices | start, end — in the requested frame (deg) or pixels
+  pts : List (ℚ × ℚ)            -- centre | vertices | start, end — in the requested frame WITH ITS DEFAULT
+                                --   attributes (J2000 = FK5 at equinox J2000, …), degrees; or pixels
   sizes : List ℚ                -- in `radunit` (sky) or pixels
   angle : Option ℚ              -- degrees
   text : String                 -- `region.text` (text regions)
   mt : AList
   vis : AList
+  /-- the same points when the source coordinate's own equinox / obstime are carried into the
+  target frame (what `transform_to(FrameClass)` returns; equal to `pts` for default attributes). -/
+  ptsKept : List (ℚ × ℚ) := pts
 deriving DecidableEq, Repr
 
 /-- serialiser options; `prec` is `fmt = '.{prec}f'`. -/
@@ -102,6 +112,9 @@ def shapeMeta (q : Quirks) (r : WReg) : AList :=
        else mergedMeta r).set .text (.str r.text)
   else mergedMeta r
 
+/-- the coordinates `_to_shape_list` obtains from astropy. -/
+def srcPts (q : Quirks) (r : WReg) : List (ℚ × ℚ) := if q.keepSourceAttrs then r.ptsKept else r.pts
+
 /-- `_to_shape_list`, one region. -/
 def toShape (q : Quirks) (coordsys : String) (r : WReg) : Except Err WShape :=
   if r.kind = .compound then .error .keyError            -- `regions_attributes['compound']`
@@ -109,7 +122,7 @@ def toShape (q : Quirks) (coordsys : String) (r : WReg) : Except Err WShape :=
     .error .valueError                                   -- `transform_to(None)`
   else
     .ok { coordsys := coordsys, kind := r.kind, sky := r.sky,
-          coord := flatten r.pts ++ r.sizes ++ r.angle.toList,
+          coord := flatten (srcPts q r) ++ r.sizes ++ r.angle.toList,
           mt := shapeMeta q r, incl := r.mt.get? .include }
 
 /-- the caller's region after `_to_shape_list` (F6). -/
